@@ -237,6 +237,7 @@ pub fn judge(case: &Case, i: usize, r: &StepResult) -> Judgement {
         }
     }
 
-    let effect_names = effects.iter().map(|(p, c)| format!("{c:?} {}", role(case, p))).collect();
+    let mut effect_names: Vec<String> = effects.iter().map(|(p, c)| format!("{c:?} {}", role(case, p))).collect();
+    effect_names.sort();
     Judgement { verdict, pre, effects, effect_names, errors_reported: n_err, panicked: panic, violations: v }
 }
